@@ -100,6 +100,10 @@ func pfPrelude() []pfCase {
 		st("app.x.io", "/", S("app.x.io", func(s *pfSess) { s.Refresh = -10; s.Grace = i64(-400) }), func(s *pfStep) { s.Refresh = pfReply{Kind: "status", Status: 503} }),
 		st("app.x.io", "/", S("app.x.io", func(s *pfSess) { s.Refresh = -10 }), func(s *pfStep) { s.Refresh = pfReply{Kind: "malformed"} }),
 		st("app.x.io", "/", S("app.x.io", func(s *pfSess) { s.Refresh = -10 }), func(s *pfStep) { s.Refresh = pfReply{Kind: "transport"} }),
+		// the authenticator accepts the request and never answers (the caller's timeout runs out): no answer is not a 429/503
+		st("app.x.io", "/", S("app.x.io", func(s *pfSess) { s.Refresh = -10 }), func(s *pfStep) { s.Refresh = pfReply{Kind: "hang"} }),
+		st("app.x.io", "/", S("app.x.io", func(s *pfSess) { s.Valid = -10 }), func(s *pfStep) { s.Validate = pfReply{Kind: "hang"} }),
+		st("app.x.io", "/", S("app.x.io", func(s *pfSess) { s.Refresh = -10; s.Grace = i64(-100) }), func(s *pfStep) { s.Refresh = pfReply{Kind: "hang"} }),
 		st("app.x.io", "/", S("app.x.io", func(s *pfSess) { s.Refresh = -10; s.RefreshTok = "" }), nil),
 		st("app.x.io", "/", S("app.x.io", func(s *pfSess) { s.Email = "ann@evil.io" }), nil),                // domain rule fails on request
 		st("app.x.io", "/", S("app.x.io", func(s *pfSess) { s.Email = "ann@evil.io"; s.Valid = -10 }), nil), // saved, then refused
@@ -144,6 +148,8 @@ func pfPrelude() []pfCase {
 		st("api.x.io", "/", SA(func(s *pfSess) { s.Valid = -10 }), func(s *pfStep) { s.Profile = pfReply{Kind: "status", Status: 503} }),
 		st("api.x.io", "/", SA(func(s *pfSess) { s.Valid = -10 }), func(s *pfStep) { s.Profile = pfReply{Kind: "status", Status: 500} }),
 		st("api.x.io", "/", SA(func(s *pfSess) { s.Valid = -10 }), func(s *pfStep) { s.Profile = pfReply{Kind: "malformed"} }),
+		st("api.x.io", "/", SA(func(s *pfSess) { s.Valid = -10 }), func(s *pfStep) { s.Profile = pfReply{Kind: "hang"} }),
+		st("api.x.io", "/", SA(func(s *pfSess) { s.Refresh = -10 }), func(s *pfStep) { s.Profile = pfReply{Kind: "hang"} }),
 		st("api.x.io", "/", SA(func(s *pfSess) { s.Refresh = -10 }), func(s *pfStep) { s.Profile = pfReply{Kind: "ok", Groups: []string{}} }),
 		st("api.x.io", "/", SA(func(s *pfSess) { s.Refresh = -10 }), func(s *pfStep) { s.Profile = pfReply{Kind: "status", Status: 429} }),
 		// outage on one endpoint only, with and without a grace period already running (refresh answered, /profile not)
@@ -218,6 +224,9 @@ func pfPrelude() []pfCase {
 	sec.Domain = "x.io"
 	sec.Upstreams[0].Override = map[string]string{"X-Frame-Options": "DENY"}
 	up := pfReply{Groups: []string{"X-Frame-Options: ALLOWALL", "X-Content-Type-Options: off", "X-Xss-Protection: 0", "Strict-Transport-Security: max-age=0", "X-Other: 1", "x-frame-options: lower"}}
+	upEmpty := pfReply{Groups: []string{"X-Frame-Options: ", "X-Content-Type-Options: ", "X-Xss-Protection: ", "Strict-Transport-Security: "}}
+	upEmptyFirst := pfReply{Groups: []string{"X-Frame-Options: ", "X-Frame-Options: ALLOWALL", "X-Content-Type-Options: ", "X-Content-Type-Options: off",
+		"X-Xss-Protection: ", "X-Xss-Protection: 0", "Strict-Transport-Security: ", "Strict-Transport-Security: max-age=0"}}
 	cases = append(cases, pfCase{Cfg: sec, Steps: []pfStep{
 		st("app.x.io", "/a%20b/c?x=%2F", none, nil), // plain http → 301
 		st("app.x.io", "/", none, func(s *pfStep) { s.Proto = "https" }),
@@ -228,7 +237,22 @@ func pfPrelude() []pfCase {
 		st("app.x.io", "/oauth2/sign_out", S("app.x.io", nil), func(s *pfStep) { s.Proto = "https" }),
 		st("app.x.io", "/", S("app.x.io", func(s *pfSess) { s.Email = "x@evil.io" }), func(s *pfStep) { s.Proto = "https" }),
 		st("nope.x.io", "/", none, func(s *pfStep) { s.Proto = "https" }),
+		// upstream answers that carry the protected headers with an empty value, alone or ahead of a real one
+		st("app.x.io", "/", S("app.x.io", nil), func(s *pfStep) { s.Proto = "https"; s.Upstream = upEmpty }),
+		st("app.x.io", "/", S("app.x.io", nil), func(s *pfStep) { s.Proto = "https"; s.Upstream = upEmptyFirst }),
+		st("api.x.io", "/", S("api.x.io", nil), func(s *pfStep) { s.Proto = "https"; s.Upstream = upEmptyFirst }),
+		st("app.x.io", "/health", none, func(s *pfStep) { s.Proto = "https"; s.Upstream = upEmptyFirst }),
 	}})
+	for _, tmo := range []int64{0, 10} {
+		pl := pfBaseCfg()
+		pl.Upstreams[0].Timeout = tmo
+		cases = append(cases, pfCase{Cfg: pl, Steps: []pfStep{
+			st("app.x.io", "/", S("app.x.io", nil), func(s *pfStep) { s.Upstream = upEmpty }),
+			st("app.x.io", "/", S("app.x.io", nil), func(s *pfStep) { s.Upstream = upEmptyFirst }),
+			st("app.x.io", "/", S("app.x.io", nil), func(s *pfStep) { s.Upstream = up }),
+			st("app.x.io", "/health", none, func(s *pfStep) { s.Upstream = upEmptyFirst }),
+		}})
+	}
 	// a group rule whose only name is blank (e.g. an empty template variable) is still a rule: it admits nobody
 	for _, gs := range [][]string{{""}, {" ", "\t"}, {"*", ""}, {"eng", ""}} {
 		bl := pfBaseCfg()
@@ -287,6 +311,9 @@ func init() {
 			"/a//b", "/a/../b", "/%2e%2e/x", "/a%2Fb", "//evil.io/x", "/\\evil.io", "/ping", "/oauth2/v1/certs", "/x?y=//z",
 			"/x.css", "/x?y=.css", "/x?y=/health", "/%2Fevil.io/", "/%2F%2Fevil.io/x", "/q?a=1;b=2", "/q?p=%zz"}
 		replies := func(okStatus int) pfReply {
+			if rng.Intn(60) == 0 {
+				return pfReply{Kind: "hang"}
+			}
 			switch rng.Intn(9) {
 			case 0:
 				return pfReply{Kind: "status", Status: 401}
@@ -321,6 +348,14 @@ func init() {
 			}
 			if rng.Intn(3) == 0 {
 				s.Profile = pfReply{Kind: "ok", Groups: []string{"eng"}}
+			}
+			if rng.Intn(6) == 0 {
+				// what the backend answers with: protected headers in any spelling, empty, duplicated
+				lines := []string{"X-Frame-Options: ", "X-Frame-Options: ALLOWALL", "x-frame-options: lower", "X-Content-Type-Options: ", "X-Content-Type-Options: off",
+					"X-Xss-Protection: ", "X-Xss-Protection: 0", "Strict-Transport-Security: ", "Strict-Transport-Security: max-age=0", "X-Other: 1"}
+				for j := 0; j < 1+rng.Intn(4); j++ {
+					s.Upstream.Groups = append(s.Upstream.Groups, lines[rng.Intn(len(lines))])
+				}
 			}
 		}
 		for k := 0; k < n; k++ {
